@@ -34,7 +34,7 @@ def generate(rng, tier):
 
 def gen_case(rng):
     regs = Regs()
-    SR = rng.choice([100, 1000.0, 1e4])
+    SR = rng.choice([100, 1000.0, 1e4, 64, 1024])
     N = rng.randint(6, 30)
     nch = rng.randint(1, 4)
     npos = rng.randint(1, 3)
@@ -95,6 +95,11 @@ def gen_case(rng):
                 w = [(rng.choice(inner), n1), (peak, n2), (rng.choice(inner), N - n1 - n2)]
                 prog.append(("EAddArray", e, c, w, SR, [("m1", marker_rle(rng, N)), ("m2", marker_rle(rng, N))]))
         prog.append(("SAddElement", s, pos, e))
+    if SR in (64, 1024) and rng.random() < 0.6:
+        # channel delays, among them exact half samples (k + 0.5 with k even and odd: Python rounds half to even in
+        # every path); power-of-two rates keep the products exact.  Differences stay >= 2 samples (C10's known finding)
+        for c in chans:
+            prog.append(("SSetDelay", s, c, rng.choice([0, 2.5, 6.5, 10, 13.5]) / SR))
     for c in chans:
         if rng.random() < 0.25:
             prog.append(("SSetRange", s, c, ampl[c], off[c]))        # the deprecated setChannelVoltageRange
